@@ -1279,6 +1279,14 @@ class Interp:
             return f.globals[e.id]
         if hasattr(builtins, e.id):
             return getattr(builtins, e.id)
+        if f.info.path.endswith(".pyx"):
+            # C-level (cdef) functions of an extension module are not in its Python
+            # namespace: resolved in the cy2py text of the same file
+            try:
+                fi = source.find(f.info.path, e.id)
+                return FuncRef(fi, f"{f.unit.module}:{e.id}", module=f.unit.module)
+            except KeyError:
+                pass
         raise PyRaise(NameError, (e.id,), e)
 
     def e_Tuple(self, e, f):
